@@ -31,6 +31,37 @@ def py_kw_like(t, flags=0):
     return bool(m and m.span() == (0, len(t)))
 
 
+def py_glued(text, kws, icase):
+    """Python mirror of no_glue_ok: occurrences of a keyword-like literal immediately followed by a word character"""
+    out = []
+    low = text.lower() if icase else text
+    for k in kws:
+        kk = k.lower() if icase else k
+        p = low.find(kk)
+        while p >= 0:
+            e = p + len(k)
+            if e < len(text) and K.is_word(text[e]):
+                out.append((k, p))
+            p = low.find(kk, p + 1)
+    return out
+
+
+def impl_oracle(chk, cinfo, text, ic, kws, p, k, failures, no_glue):
+    """the part of the property oracle that needs only the implementation's own outcomes (works when the
+    parser model cannot be dumped): (1) no terminal of a keyword-like literal in the autokwd parse is followed
+    by a word character; (3) without a glued keyword model_from_str gives the same result."""
+    for lit, pos, ch in (k.get("glued") or []):
+        failures.append({"case": cinfo, "what": "autokwd: keyword %r matched at %d although the next character %r is a word character (model_from_str: %s)" % (
+            lit, pos, ch, "accepted" if k["model"]["ok"] else k["model"]["err"]), "tags": [], "impl": k.get("tree")})
+    if no_glue and p["model"] != k["model"]:
+        tags, notes = [], []
+        if ic and p["model"]["ok"] and k["model"]["ok"] and K.model_struct_equal(p["model"]["model"], k["model"]["model"], text, text, notes):
+            tags = ["icase_keyword_spelling"]
+        chk.stat("impl: autokwd changes the outcome without a glued keyword")
+        failures.append({"case": cinfo, "what": "no keyword is followed by a word character, but model_from_str differs: plain %r, autokwd %r" % (
+            json.dumps(p["model"])[:300], json.dumps(k["model"])[:300]), "tags": tags, "impl": [p.get("tree"), k.get("tree")]})
+
+
 def corpus_cases():
     cases = []
     if os.path.isdir(CORPUS_DIR):
@@ -42,6 +73,11 @@ def corpus_cases():
     return cases
 
 
+# characters put right after a keyword: word characters of every kind (letter, digit, underscore, non-ASCII letter,
+# non-ASCII digits / numerics) and look-alikes that are NOT word characters (combining mark, hyphen-like, NBSP)
+GLUE_CHARS = ["a", "b", "x", "1", "9", "_", "_", "é", "\u00b2", "\u0660", "\u0301", "\u00a0", "\u2010", "\u00aa", "\u2160"]
+
+
 def glue(r, text, lits):
     """put a word character right after (or before) an occurrence of a keyword-like literal"""
     occ = []
@@ -51,11 +87,16 @@ def glue(r, text, lits):
     if not occ:
         return text
     a, b = r.choice(sorted(set(occ)))
-    c = r.weighted([("ins", 5), ("del", 4), ("pre", 2)])
+    c = r.weighted([("ins", 5), ("del", 4), ("pre", 2), ("delpre", 3)])
     if c == "ins":
-        return text[:b] + r.choice("abx19_é") + text[b:]
+        return text[:b] + r.choice(GLUE_CHARS) + text[b:]
     if c == "pre":
         return text[:a] + r.choice("ax1_") + text[a:]
+    if c == "delpre":      # keyword glued to what precedes it (there is no boundary requirement on that side)
+        e = a
+        while e > 0 and text[e - 1] in " \t\r\n":
+            e -= 1
+        return text[:e] + text[a:]
     e = b
     while e < len(text) and text[e] in " \t\r\n":
         e += 1
@@ -261,6 +302,19 @@ def run(chk):
         d0, d1 = res["dump_plain"], res["dump_kw"]
         ic = bool(case["opts"].get("ignore_case"))
         ginfo = {"grammar": case["grammar"], "opts": case["opts"], "tag": case.get("tag")}
+        kws = res.get("keywords", [])
+        if d0 is None:
+            # no dump: the tie to the model is lost for this grammar, the implementation is still observed
+            if "parsing expression of type" in (res.get("dump_error") or ""):
+                disagreements.append({"case": ginfo, "impl": res["dump_error"], "model": "the parser model contains a node class the model does not know"})
+            else:
+                chk.stat("grammar outside the dumped fragment: " + (res.get("dump_error") or "?")[:60])
+            for text, run_ in zip(case["inputs"], res["runs"]):
+                if run_.get("timeout") or run_.get("unsupported"):
+                    continue
+                chk.count(json.dumps([case["grammar"], case["opts"], text]), nontrivial=run_["kw"]["model"]["ok"] or run_["plain"]["model"]["ok"])
+                impl_oracle(chk, dict(ginfo, input=text), text, ic, kws, run_["plain"], run_["kw"], failures, not py_glued(text, kws, ic))
+            continue
         # ---- property (2): nothing but keyword-like literals changes
         sd = structure_diff(d0, d1)
         if sd:
@@ -306,10 +360,13 @@ def run(chk):
                 disagreements.append({"case": cinfo, "impl": {"plain": p["table"], "kw": k["table"]}, "model": "kw_case_ok = F (hypothesis of C21_same_model about the terminals)"})
             nontrivial = k["tree"].startswith("P:") or p["tree"].startswith("P:") or not no_glue
             chk.count(json.dumps([case["grammar"], case["opts"], text]), nontrivial=nontrivial)
+            # ---- the Python view of "no glued keyword" must agree with the Coq one
+            if (not py_glued(text, kws, ic)) != no_glue:
+                disagreements.append({"case": cinfo, "impl": {"glued (python)": py_glued(text, kws, ic)[:3]}, "model": "no_glue_ok = %s" % no_glue})
             # ---- property (1): a keyword match is never followed by a word character
             if k["tree"].startswith("P:"):
                 for nid, pos, ln in K.terminals(k["tree"]):
-                    if nid in kwnodes and pos + ln < len(text) and K.is_word(text[pos + ln]):
+                    if nid in kwnodes and pos + ln < len(text) and K.is_word(text[pos + ln]) and not k.get("glued"):
                         failures.append({"case": cinfo, "what": "autokwd: keyword %r matched at %d although the next character %r is a word character" % (
                             d0["nodes"][nid]["text"], pos, text[pos + ln]), "tags": [], "impl": k["tree"]})
             # ---- property (3): same model when no keyword is glued
@@ -317,20 +374,13 @@ def run(chk):
                 chk.stat("no glued keyword: same outcome required")
                 if tables_ok and K.strip_sup(mo0) != K.strip_sup(mo1):
                     disagreements.append({"case": cinfo, "impl": None, "model": [mo0, mo1], "what": "theorem instance contradicted by evaluation"})
-                what, tags = None, []
                 if K.strip_sup(p["tree"]) != K.strip_sup(k["tree"]):
-                    what = "no keyword is followed by a word character, but the parse differs: plain %s, autokwd %s" % (p["tree"][:160], k["tree"][:160])
-                elif p["model"] != k["model"]:
-                    notes = []
-                    if ic and p["model"]["ok"] and k["model"]["ok"] and K.model_struct_equal(p["model"]["model"], k["model"]["model"], text, text, notes):
-                        tags = ["icase_keyword_spelling"]
-                    what = "no keyword is followed by a word character, but model_from_str differs: plain %r, autokwd %r" % (
-                        json.dumps(p["model"])[:300], json.dumps(k["model"])[:300])
-                if what:
                     chk.stat("impl: autokwd changes the outcome without a glued keyword")
-                    failures.append({"case": cinfo, "what": what, "tags": tags, "impl": [p["tree"], k["tree"]], "model": mv})
+                    failures.append({"case": cinfo, "what": "no keyword is followed by a word character, but the parse differs: plain %s, autokwd %s" % (
+                        p["tree"][:160], k["tree"][:160]), "tags": [], "impl": [p["tree"], k["tree"]], "model": mv})
             else:
                 chk.stat("glued keyword: %s" % ("outcomes differ" if K.strip_sup(p["tree"]) != K.strip_sup(k["tree"]) else "outcomes equal"))
+            impl_oracle(chk, cinfo, text, ic, kws, p, k, failures, no_glue and K.strip_sup(p["tree"]) == K.strip_sup(k["tree"]))
             if nrun % 60 == 7:
                 chk.sample({"grammar": case["grammar"], "opts": case["opts"], "input": text, "plain": p["tree"][:100], "autokwd": k["tree"][:100], "no_glue": no_glue})
     chk.cov["rule"] = ("(a) all literals over {a,B,1,_,-,space,e-acute,arabic-indic digit,newline} up to length 3: kw_like vs Python re on the translated pattern; "
